@@ -145,7 +145,7 @@ package tags
 //@ func tags.loopTagCompiler$1
 //@ expect func(w io.Writer, ctx render.Context) error
 //@ props C11 C01
-//@ requires args: ctx != nil && stmt != nil && forall(k, 0, len(node.Clauses), node.Clauses[k] != nil)
+//@ requires args: w != nil && ctx != nil && stmt != nil && forall(k, 0, len(node.Clauses), node.Clauses[k] != nil)
 //@ ghost decided Bool = false
 //@ ghost nothing Bool = false
 //@ ghost elseRendered Bool = false
